@@ -1,6 +1,7 @@
 package main
 
 import (
+	"golang.org/x/sys/unix"
 	"bytes"
 	"context"
 	"fmt"
@@ -346,15 +347,114 @@ func (c *Ctx) perm1(n int) []int {
 	return p
 }
 
+// packRootExec: recipe "packroot <fmt> <pack filter> <fileset>" — filesets whose root is not a directory (or holds
+// nothing but nodes a filter ejects) under every dev= policy: pack answers what the model answers and never panics.
+func packRootExec(c *Ctx, op string) {
+	f := strings.Fields(op)
+	fmtName, pfStr := f[1], f[2]
+	fsx := parseFilesetTok(f[3])
+	caseCounter++
+	base := filepath.Join(c.Work, fmt.Sprintf("pr%d", caseCounter))
+	defer rmrf(base)
+	src := filepath.Join(base, "src")
+	os.MkdirAll(base, 0755)
+	var merr error
+	if len(fsx) == 1 && fsx[0].Kind != 'd' { // the root itself is the special node
+		r := fsx[0]
+		switch r.Kind {
+		case 'f':
+			merr = os.WriteFile(src, r.Content, 0600)
+		case 'L':
+			merr = os.Symlink(r.Link, src)
+		case 'p':
+			merr = syscall.Mkfifo(src, 0600)
+		case 'c':
+			merr = syscall.Mknod(src, syscall.S_IFCHR|0600, int(unix.Mkdev(uint32(r.Maj), uint32(r.Min))))
+		case 'D':
+			merr = syscall.Mknod(src, syscall.S_IFBLK|0600, int(unix.Mkdev(uint32(r.Maj), uint32(r.Min))))
+		}
+		if merr == nil && r.Kind != 'L' {
+			os.Lchown(src, int(r.Uid), int(r.Gid))
+			syscall.Chmod(src, uint32(r.Perms))
+			os.Chtimes(src, time.Unix(r.Sec, 0), time.Unix(r.Sec, 0))
+		}
+	} else {
+		merr = Materialize(fsx, src, nil)
+	}
+	if merr != nil {
+		c.EmitR(op, "skip", "skip")
+		return
+	}
+	pf := api.MustParseFilesetPackFilter(pfStr)
+	fn := funcsFor(fmtName)
+	id, err, pan := safeCall(func() (api.WareID, error) {
+		return fn.pack(context.Background(), api.PackType(fmtName), src, pf, "", rio.Monitor{})
+	})
+	c.EmitR(op, fmt.Sprintf("pack %s %s %s", fmtName, filterInts(pf), entriesTokForModel(fsx)), resTok(id, err, pan))
+	if pan != "" {
+		c.PropFail("panic-pack", "pack of a fileset with a special root panicked: "+pan, op)
+	}
+	c.H("packroot:" + fmtName + ":" + strings.Fields(resTok(id, err, pan))[0])
+	c.Distinct(op)
+}
+
 func rtEngine(c *Ctx) {
 	if ls := replayLines(); ls != nil {
 		for _, op := range ls {
 			if strings.HasPrefix(op, "rt ") && !strings.Contains(op, " #") {
 				rtExec(c, op)
+			} else if strings.HasPrefix(op, "packroot ") {
+				packRootExec(c, op)
 			}
 		}
 		return
 	}
+	packRootsAll(c)
+	rtEngineRest(c)
+}
+
+func init() {
+	engines["packroot"] = func(c *Ctx) {
+		if ls := replayLines(); ls != nil {
+			for _, op := range ls {
+				if strings.HasPrefix(op, "packroot ") {
+					packRootExec(c, op)
+				}
+			}
+			return
+		}
+		packRootsAll(c)
+	}
+}
+
+func packRootsAll(c *Ctx) {
+	{
+		e := func(n string, k byte) Entry {
+			x := Entry{Name: n, Kind: k, Perms: 0644, Uid: 3, Gid: 4, Sec: 1e9}
+			switch k {
+			case 'd':
+				x.Perms = 0755
+			case 'L':
+				x.Perms, x.Link = 0777, "t"
+			case 'c', 'D':
+				x.Maj, x.Min = 1, 3
+			case 'f':
+				x.Content = []byte("x")
+			}
+			return x
+		}
+		roots := []Fileset{{e("", 'c')}, {e("", 'D')}, {e("", 'p')}, {e("", 'f')}, {e("", 'L')}, {e("", 'd'), e("null", 'c')}, {e("", 'd'), e("null", 'c'), e("f", 'f')}, {e("", 'd'), e("sub", 'd'), e("sub/sda", 'D')}}
+		for _, r := range roots {
+			for _, fm := range []string{"tar", "zip"} {
+				for _, dv := range []string{"keep", "ignore", "reject"} {
+					packRootExec(c, fmt.Sprintf("packroot %s uid=keep,gid=keep,mtime=keep,sticky=keep,setid=keep,dev=%s %s", fm, dv, filesetTok(r)))
+				}
+			}
+		}
+	}
+}
+
+func rtEngineRest(c *Ctx) {
 	n, maxEnt := 24, 8
 	if c.Tier == "thorough" {
 		n, maxEnt = 400, 30
